@@ -51,16 +51,22 @@ package sourcerunner
 //@   nosafety
 //@   atcall HandleEvent: recv_ == op && arg0 == request
 
+// (A full batch is handed over by Flush, which WAITS for the operator's sender: HandleEvent takes
+// no batch out of the batcher itself and sends nothing itself - a batch taken for a hand-over that
+// may not happen is lost.)
 //@ func batchingOperator.HandleEvent
 //@   property C04
 //@   nosafety
 //@   atcall Add: same(recv_, o.batcher) && arg0 == event
 //@   ensures called(Add)
+//@   atcall send:batches: false
+//@   atcall Flush: same(recv_, o)
 
 //@ func batchingOperator.Flush
 //@   property C04
 //@   nosafety
 //@   atcall Flush: same(recv_, o.batcher) && arg0 == batching.CurrentBatch
+//@   ensures called("send:batches")
 
 // The sender goroutine of an operator: a timed-out batch is taken under its own token (a stale
 // token takes nothing), a full batch is the one handed over; both go to this operator.
